@@ -330,15 +330,19 @@ ClientDoneRes(cs) == IF cs.unsigned # 0 THEN "TooManyUnsigned" ELSE "Ok"
 (* HMAC): signs from the declarative layout, may leave intermediate        *)
 (* messages of a sequence unsigned.  rs = [prior, pending, first]          *)
 
-RfcSignStep(key, rs, m, now, fudge, tbl, fullNew) ==
-  LET stub == PushRec(m, MkTsig(key.name, AlgWire(key.alg), now, fudge, <<>>, HdrId(m.hdr), 0, <<>>))
+\* err / other: the TSIG error field and other-data the responder puts into
+\* the record (covered by the MAC of a first answer, RFC 8945 4.3.3)
+RfcSignStepE(key, rs, m, now, fudge, err, other, tbl, fullNew) ==
+  LET stub == PushRec(m, MkTsig(key.name, AlgWire(key.alg), now, fudge, <<>>, HdrId(m.hdr), err, other))
       data == IF rs.first THEN DigestResp(key.name, AlgWire(key.alg), rs.prior, stub)
               ELSE DigestSubseq(rs.prior, rs.pending, stub)
       s == SignT(tbl, key.alg, key.sec, data, fullNew)
       mac == Take(s.full, key.slen)
   IN [tbl |-> s.tbl, j |-> s.j, data |-> data, mac |-> mac,
       rs |-> [prior |-> mac, pending |-> <<>>, first |-> FALSE],
-      msg |-> PushRec(m, MkTsig(key.name, AlgWire(key.alg), now, fudge, mac, HdrId(m.hdr), 0, <<>>))]
+      msg |-> PushRec(m, MkTsig(key.name, AlgWire(key.alg), now, fudge, mac, HdrId(m.hdr), err, other))]
+RfcSignStep(key, rs, m, now, fudge, tbl, fullNew) ==
+  RfcSignStepE(key, rs, m, now, fudge, 0, <<>>, tbl, fullNew)
 RECURSIVE Rep(_, _)
 Rep(s, n) == IF n = 0 THEN <<>> ELSE s \o Rep(s, n - 1)
 RfcUnsignedStep(rs, m, n) == [rs EXCEPT !.pending = @ \o Rep(Wire(m), n)]
